@@ -17,7 +17,8 @@ RULE = (
     "instants rendered in a seeded representation each (naive local with fold as datetime.fromtimestamp gives and the "
     "file stores produce, aware UTC, aware fixed offsets -12:00..+14:00, aware zoneinfo zones) x fresh_time (absent or any "
     "representation); instants are clustered around the zone's DST transitions (inside the repeated fall-back hour, across "
-    "the spring-forward gap) or spread over years; mode 'file' uses real JsonFileStore files with os.utime. oracle = the "
+    "the spring-forward gap) or spread over years; one scenario in ten puts the naive sentinels datetime.max / datetime.min (the ends of "
+    "the range, where conversion to UTC overflows) in as fresh_time or as one store's modified time; mode 'file' uses real JsonFileStore files with os.utime. oracle = the "
     "out-of-date / need oracle evaluated on epoch seconds: the exact multiset of rebuilt stores, executed calls and reads "
     "must match. non-trivial = non-UTC zone with at least two different representations among the datetimes involved; "
     "distinct by (zone, plan, instants, representations)"
@@ -68,7 +69,14 @@ class StampLike(dt.datetime):
     """A datetime SUBCLASS, as libraries hand them out (pandas.Timestamp, pendulum, arrow-like wrappers): the same instant, naive or aware."""
 
 
+EDGE_MAX, EDGE_MIN = 1e18, -1e18  # stand-ins (epoch seconds) for the instants the naive sentinels datetime.max / datetime.min denote
+
+
 def represent(epoch, rep):
+    if epoch == EDGE_MAX:
+        return dt.datetime.max  # naive: "later than everything" in whatever the local zone is
+    if epoch == EDGE_MIN:
+        return dt.datetime.min  # naive: "earlier than everything"
     if rep[0].startswith("sub_"):
         # (built field by field from the plain value: in CPython 3.12 `Subclass.fromtimestamp(t)` drops the fold of a naive local time)
         d = represent(epoch, {"sub_naive": ("naive_local",), "sub_fixed": ("fixed", rep[1] if len(rep) > 1 else 0), "sub_zone": ("zone", rep[1] if len(rep) > 1 else "UTC")}[rep[0]])
@@ -182,9 +190,31 @@ def run_case(desc):
                 rep = ("zone", zone)  # aware values that share ONE tzinfo object (Python orders those by wall clock, ignoring fold)
             reps[i] = rep
             st.dt_of = (lambda tick, rep=rep: represent(tick, rep))
+        # the naive sentinels at the two ends of the datetime range (in most zones they cannot be placed on the UTC time line: the conversion
+        # overflows): datetime.max as fresh_time = "rebuild everything", datetime.min as fresh_time = no constraint, datetime.min as a stored
+        # value's modified time = "older than everything", datetime.max as a source's = "newer than everything". At most one store per end,
+        # so no two equal edge instants meet; every other instant lies in 1969..2025.
+        edge = rng.random() < 0.1
+        edge_kinds = []
+        if edge:
+            for i in rng.sample(order, min(len(order), rng.choice([0, 1, 1, 2]))):
+                e_ = EDGE_MIN if EDGE_MIN not in [S.stores[j].mtick for j in order] else EDGE_MAX
+                if rng.random() < 0.3 and EDGE_MAX not in [S.stores[j].mtick for j in order]:
+                    e_ = EDGE_MAX
+                if e_ in [S.stores[j].mtick for j in order]:
+                    continue
+                S.stores[i].mtick = e_
+                inst[order.index(i)] = e_
+                edge_kinds.append(("store_max" if e_ == EDGE_MAX else "store_min"))
         fresh_epoch = None
         fresh_rep = None
-        if rng.random() < (0.9 if style == "recent" else 0.6):
+        if edge and rng.random() < 0.8:
+            fresh_epoch = rng.choice([EDGE_MAX, EDGE_MAX, EDGE_MIN])
+            if fresh_epoch in [S.stores[j].mtick for j in order]:
+                fresh_epoch = -fresh_epoch
+            fresh_rep = ("naive_local",)
+            edge_kinds.append("fresh_max" if fresh_epoch == EDGE_MAX else "fresh_min")
+        elif rng.random() < (0.9 if style == "recent" else 0.6):
             fresh_epoch = rng.choice(pool) + (rng.choice([0, 0, 1 / 128, -1 / 128, 0.5]) if sub else rng.choice([0, 0, 1, -1, 30] if style == "recent" else [0, 0, 1, -1, 1800]))
             fresh_rep = rand_rep(rng, 0.4)
         out_ids = history.choose_out(rng, S)
@@ -210,7 +240,8 @@ def run_case(desc):
         mech = "tz-representation"
         res = {"status": "ok", "counters": {"scenarios": 1, f"zone_{zone}": 1, f"style_{kind}": 1,
                                              "mixed_representation_scenarios": int(len(all_reps) > 1),
-                                             "stores_with_decision": len(S.reg)},
+                                             "stores_with_decision": len(S.reg), "edge_of_range_scenarios": int(bool(edge_kinds)),
+                                             **{f"edge_{k}": 1 for k in set(edge_kinds)}},
                "sets": {"representations": sorted(all_reps)},
                "nontrivial": zone != "UTC" and len(all_reps) > 1,
                "sig": hashlib.sha1((zone + "\n".join(S.describe(50)) + str(inst) + str(sorted(reps.items())) + str(fresh_epoch) + str(fresh_rep)).encode()).hexdigest()[:16]}
@@ -331,4 +362,6 @@ def finalize(agg, tier):
         reasons.append("fewer than 200 mixed naive/aware scenarios")
     if c["style_fall"] < 50 or c["style_spring"] < 50:
         reasons.append("too few scenarios around DST transitions")
+    if c["edge_fresh_max"] < 30 or c["edge_store_min"] < 30:
+        reasons.append("fewer than 30 scenarios with datetime.max as fresh_time / datetime.min as a modified time")
     return reasons
